@@ -7,6 +7,8 @@ import sys
 
 TESTS: list[tuple[str, str]] = [
     ("pv.checks.c09", "selftest"),
+    ("pv.checks.c14", "selftest"),
+    ("pv.checks.c18", "selftest"),
 ]
 
 
